@@ -27,6 +27,8 @@ pub struct Dep {
   pub rchk: Option<RK>,
   pub ochk: Option<OK>,
   pub serials: Vec<u64>,
+  /// Checker and kind of every access to this target, parallel to `serials`.
+  pub accesses: Vec<(DepKind, Option<RK>, Option<OK>)>,
 }
 
 #[derive(Clone, Debug)]
@@ -324,7 +326,7 @@ impl<'a> Runner<'a> {
       }
       match abort.kind {
         AbortKind::InjectedCrash => { self.crashes_fired += 1; self.stats.hit("fault_crash_fired"); }
-        AbortKind::TaskPanic => { if prog.class == Class::W { self.harness_error = Some(format!("class W program panicked: {}", abort.info.short())); } }
+        AbortKind::TaskPanic => { if matches!(prog.class, Class::W | Class::V) { self.harness_error = Some(format!("class W program panicked: {}", abort.info.short())); } }
         AbortKind::Guard => {
           self.viol(&["C07"], "unbounded-recursion", step, format!("execution depth / count guard fired: {}", abort.info.short()));
         }
@@ -345,6 +347,7 @@ impl<'a> Runner<'a> {
       return false;
     }
 
+    self.check_store_dump(step);
     if self.vs.iter().any(|v| v.concerns(self.prop)) { return true; }
 
     // The session returned: from-scratch equality.
@@ -361,8 +364,8 @@ impl<'a> Runner<'a> {
     };
     let mut expected: BTreeMap<Tid, Out> = BTreeMap::new();
     for t in clean_roots.iter() { let o = clean.require(*t); expected.insert(*t, o); }
-    if prog.class == Class::W && !clean.ill.is_empty() {
-      self.harness_error = Some(format!("class W program is ill-formed in a visited state: {:?}", clean.ill));
+    if matches!(prog.class, Class::W | Class::V) && !clean.ill.is_empty() {
+      self.harness_error = Some(format!("class {:?} program is ill-formed in a visited state: {:?}", prog.class, clean.ill));
       return true;
     }
     for t in clean.order.iter() { self.known.insert(*t); }
@@ -445,6 +448,79 @@ impl<'a> Runner<'a> {
     true
   }
 
+
+  /// O8: the guarded store dump must equal the ledger of latest executions.
+  fn check_store_dump(&mut self, step: usize) {
+    use pie::verif::EdgeKind;
+    let prog = self.prog.clone();
+    let dump = self.pie.verif_dump_store();
+    let keys: Vec<KeyR> = dump.nodes.iter().map(|n| super::trk::render_key(n.key.as_ref())).collect();
+    let mut problem: Option<(String, String)> = None; // (message, signature)
+    // Symmetry of incoming / outgoing adjacency.
+    for (i, n) in dump.nodes.iter().enumerate() {
+      for e in n.outgoing.iter() { if !dump.nodes[e.target].incoming.contains(&i) { problem = Some((format!("edge {:?} -> {:?} is missing from the target's incoming edges", keys[i], keys[e.target]), String::new())); } }
+      for s in n.incoming.iter() { if !dump.nodes[*s].outgoing.iter().any(|e| e.target == i) { problem = Some((format!("incoming edge {:?} -> {:?} has no outgoing counterpart", keys[*s], keys[i]), String::new())); } }
+      if n.rank == 0 || n.rank as usize > dump.nodes.len() { problem = Some((format!("node {:?} has rank {} of {}", keys[i], n.rank, dump.nodes.len()), String::new())); }
+    }
+    let n_tasks = dump.nodes.iter().filter(|n| n.is_task).count();
+    if dump.task_map_len != n_tasks || dump.resource_map_len != dump.nodes.len() - n_tasks {
+      problem = Some((format!("store maps hold {} tasks / {} resources but the graph has {} / {} nodes", dump.task_map_len, dump.resource_map_len, n_tasks, dump.nodes.len() - n_tasks), String::new()));
+    }
+    // One node per key.
+    for i in 0..keys.len() { for j in 0..i { if keys[i] == keys[j] { problem = Some((format!("two nodes for key {:?}", keys[i]), String::new())); } } }
+    for t in 0..prog.tasks.len() {
+      if problem.is_some() { break; }
+      let key = KeyR::Task(prog.tasks[t].key);
+      let node = keys.iter().position(|k| *k == key);
+      let Some(rec) = self.ledger[t].as_ref() else {
+        if let Some(ni) = node { if !dump.nodes[ni].outgoing.is_empty() || dump.nodes[ni].output.is_some() { problem = Some((format!("task {t} never started executing but its node has {} dependencies / output {:?}", dump.nodes[ni].outgoing.len(), dump.nodes[ni].output), String::new())); } }
+        continue;
+      };
+      let Some(ni) = node else { problem = Some((format!("task {t} has executed but has no node in the store"), String::new())); break; };
+      let n = &dump.nodes[ni];
+      if !n.is_task { problem = Some((format!("node of task {t} is not a task node"), String::new())); break; }
+      let out = n.output.as_ref().map(|o| super::trk::render_val(o.as_ref()));
+      let exp_out = if rec.completed { rec.out.map(ValR::Out) } else { None };
+      if out != exp_out { problem = Some((format!("store caches output {:?} for task {t}; its latest execution {} {:?}", out, if rec.completed { "returned" } else { "was aborted, expected" }, exp_out), String::new())); break; }
+      // Edges.
+      let real: Vec<&pie::verif::EdgeDump> = n.outgoing.iter().filter(|e| e.kind != EdgeKind::ReservedRequire).collect();
+      let reserved: Vec<KeyR> = n.outgoing.iter().filter(|e| e.kind == EdgeKind::ReservedRequire).map(|e| keys[e.target].clone()).collect();
+      if rec.completed && !reserved.is_empty() { problem = Some((format!("task {t} completed but keeps reserved require edges to {:?}", reserved), String::new())); break; }
+      if real.len() != rec.deps.len() {
+        problem = Some((format!("store holds {} dependencies for task {t}, its latest execution created {}: store targets {:?}, ledger targets {:?}", real.len(), rec.deps.len(), real.iter().map(|e| keys[e.target].clone()).collect::<Vec<_>>(), rec.deps.iter().map(|d| d.target).collect::<Vec<_>>()), String::new()));
+        break;
+      }
+      for (pos, (e, d)) in real.iter().zip(rec.deps.iter()).enumerate() {
+        let tkey = match d.target { Target::Task(u) => KeyR::Task(prog.tasks[u].key), Target::Res(r) => KeyR::Res(r) };
+        if keys[e.target] != tkey {
+          if rec.completed { problem = Some((format!("dependency {pos} of task {t} in the store targets {:?}, the execution created {:?} at that position (store order {:?})", keys[e.target], tkey, real.iter().map(|e| keys[e.target].clone()).collect::<Vec<_>>()), String::new())); }
+          break;
+        }
+        let chk = e.checker.as_ref().map(|c| super::trk::render_val(c.as_ref()));
+        let stamp = e.stamp.as_ref().map(|c| super::trk::render_val(c.as_ref()));
+        let serial = match &stamp { Some(ValR::RStamp(s)) => s.serial, Some(ValR::OStamp(s)) => s.serial, _ => 0 };
+        let Some(ai) = d.serials.iter().position(|s| *s == serial) else {
+          problem = Some((format!("dependency {pos} of task {t} ({:?}) carries stamp {:?}, which its latest execution did not create (its stamps: {:?})", tkey, stamp, d.serials), String::new()));
+          break;
+        };
+        let (akind, arch, aoch) = d.accesses[ai];
+        let kind_ok = matches!((e.kind, akind), (EdgeKind::Require, DepKind::Require) | (EdgeKind::Read, DepKind::Read) | (EdgeKind::Write, DepKind::Write));
+        let chk_ok = match (&chk, arch, aoch) { (Some(ValR::RChk(c)), Some(k), _) => c.kind == k, (Some(ValR::OChk(c)), _, Some(k)) => c.kind == k, _ => false };
+        if !kind_ok || !chk_ok { problem = Some((format!("dependency {pos} of task {t} ({:?}) is recorded as {:?} with checker {:?}; the access was {:?} with {:?}/{:?}", tkey, e.kind, chk, akind, arch, aoch), String::new())); break; }
+        // Several accesses to one target with different checkers or kinds: only one can be recorded.
+        let distinct = d.accesses.iter().any(|a| *a != d.accesses[0]);
+        if distinct && rec.completed {
+          let sig = format!("multi-checker:{:?}", akind).to_lowercase();
+          problem = Some((format!("task {t} declared {} dependencies on {:?} with different checkers {:?}; the store keeps only one of them", d.accesses.len(), tkey, d.accesses), sig));
+          break;
+        }
+      }
+    }
+    if let Some((msg, sig)) = problem {
+      let v = Violation::new(&["C08"], "store-dump", step, msg).with_sig(&sig);
+      if self.vs.len() < 16 { self.vs.push(v); }
+    }
+  }
 
   /// A build aborted with a cycle / hidden-dependency / overlapping-write diagnostic: decide whether the violation
   /// exists in the current state (fine), is explained by recorded dependencies of tasks that were not yet validated
@@ -1215,8 +1291,9 @@ fn add_dep(ledger: &mut [Option<ExecRec>], owner: Owner, target: Target, kind: D
   if e.n != n { return; }
   if let Some(d) = e.deps.iter_mut().find(|d| d.target == target) {
     d.serials.push(serial);
+    d.accesses.push((kind, rchk, ochk));
   } else {
-    e.deps.push(Dep { target, kind, rchk, ochk, serials: vec![serial] });
+    e.deps.push(Dep { target, kind, rchk, ochk, serials: vec![serial], accesses: vec![(kind, rchk, ochk)] });
   }
 }
 
@@ -1245,6 +1322,7 @@ pub fn write_checker_of(prog: &Program, w: Tid, r: usize) -> Option<RK> {
       match op {
         Op::Write { res, chk, .. } if *res == r => return Some(*chk),
         Op::If { then, els, .. } => { if let Some(k) = find(then, r).or_else(|| find(els, r)) { return Some(k); } }
+        Op::Switch { cases, .. } => { for c in cases { if let Some(k) = find(c, r) { return Some(k); } } }
         _ => {}
       }
     }
